@@ -151,6 +151,9 @@ func (g *gen) scope(kind string) Scope {
 	return s
 }
 
+// SharedErrTexts are failure messages several probes of one tree may share.
+var SharedErrTexts = []string{"backend unavailable", "quota exceeded"}
+
 func (g *gen) id() string {
 	g.nid++
 	return g.o.IDPrefix + strconv.Itoa(g.nid)
@@ -171,6 +174,11 @@ func (g *gen) leaf() *Node {
 		}
 		if g.rng.Intn(100) < g.o.ErrProb {
 			n.ErrOn = [][]Kind{{Req}, {Res}, {Req, Res}}[g.rng.Intn(3)]
+			// every third failing probe (by id number, no extra PRNG draw) fails with
+			// one of two shared texts: distinct failures need not have distinct messages
+			if g.nid%3 == 0 {
+				n.A["errText"] = SharedErrTexts[(g.nid/3)%2]
+			}
 		}
 	case x < 66:
 		n.Kind = KProbeReq
